@@ -10,7 +10,7 @@ use mini_moka::verif::VerifClock;
 
 use crate::gen::{gen_config, Pop, MS, SEC};
 use crate::hooks::{Shared, SimHooks};
-use crate::lin::{check_key, LinEvent, LinOp};
+use crate::lin::{check_key_exp, Expiry, LinEvent, LinOp};
 use crate::ops::{CallbackFaults, Config, Engine, Faults, Kind, Op, OpRec, Origin, SchedSpec, Trace};
 use crate::prng::{mix, Fnv, Prng};
 use crate::report::RunReport;
@@ -748,7 +748,10 @@ fn judge_history(
         }
         per_key.values().sum()
     };
-    let strict = !cfg.has_expiry() && cfg.cap.map(|c| total_weight <= c).unwrap_or(true);
+    // strict register: capacity-safe by construction (the largest weights of all keys fit
+    // together); with expiry a read may still miss a value that may have expired
+    let strict = cfg.cap.map(|c| total_weight <= c).unwrap_or(true);
+    let exp = Expiry { ttl: cfg.ttl, tti: cfg.tti };
     if strict {
         rep.flag("c02_strict_register", 1);
     }
@@ -789,6 +792,7 @@ fn judge_history(
         idx: usize,
         stepped: bool,
         writer_steps_between: bool,
+        clock_hi: u64,
     }
     let mut iters: Vec<IterObs> = Vec::new();
     for r in hist {
@@ -801,6 +805,7 @@ fn judge_history(
                 idx: r.idx,
                 stepped: false,
                 writer_steps_between: false,
+                clock_hi: r.clock_hi,
             });
         }
     }
@@ -819,6 +824,7 @@ fn judge_history(
                         idx: r.idx,
                         stepped: true,
                         writer_steps_between: false,
+                        clock_hi: r.clock_hi,
                     });
                     last_ret = r.ret;
                 }
@@ -833,6 +839,7 @@ fn judge_history(
                             c.writer_steps_between = true;
                         }
                         c.ret = r.ret;
+                        c.clock_hi = r.clock_hi;
                         last_ret = r.ret;
                     }
                 }
@@ -840,6 +847,7 @@ fn judge_history(
                     if let Some(mut c) = cur.take() {
                         c.items.extend(rest.iter().copied());
                         c.ret = r.ret;
+                        c.clock_hi = r.clock_hi;
                         iters.push(c);
                     }
                 }
@@ -887,9 +895,11 @@ fn judge_history(
                 }
                 (Op::Invalidate { k: kk }, Res::Unit) if kk == k => evs.push(mk(LinOp::Remove)),
                 (Op::InvalidateAll, Res::Unit) => evs.push(mk(LinOp::RemoveAll { clock: (r.clock_lo, r.clock_hi) })),
-                (Op::Get { k: kk }, Res::Got(g)) if kk == k => evs.push(mk(LinOp::Read { got: *g, any_value: false })),
+                (Op::Get { k: kk }, Res::Got(g)) if kk == k => {
+                    evs.push(mk(LinOp::Read { got: *g, any_value: false, clock_hi: r.clock_hi }))
+                }
                 (Op::Contains { k: kk }, Res::Has(b)) if kk == k => {
-                    evs.push(mk(LinOp::Read { got: None, any_value: *b }))
+                    evs.push(mk(LinOp::Read { got: None, any_value: *b, clock_hi: r.clock_hi }))
                 }
                 _ => {}
             }
@@ -897,7 +907,7 @@ fn judge_history(
         for it in &iters {
             let got = it.items.iter().find(|(kk, _)| kk == k).map(|p| p.1);
             evs.push(LinEvent {
-                op: LinOp::Read { got, any_value: false },
+                op: LinOp::Read { got, any_value: false, clock_hi: it.clock_hi },
                 invoke: it.invoke + 1,
                 ret: it.ret + 1,
                 tid: it.tid,
@@ -906,7 +916,7 @@ fn judge_history(
         }
         // final read
         evs.push(LinEvent {
-            op: LinOp::Read { got: finals[k], any_value: false },
+            op: LinOp::Read { got: finals[k], any_value: false, clock_hi: now },
             invoke: end_step + 10,
             ret: end_step + 11,
             tid: 98,
@@ -917,10 +927,10 @@ fn judge_history(
         if evs.len() > 28 {
             continue;
         }
-        if let Err(desc) = check_key(&evs, strict) {
+        if let Err(desc) = check_key_exp(&evs, strict, exp) {
             // classify: a non-strict failure is a safety failure (stale / phantom value);
             // a failure only under the strict register is a spurious loss
-            let safety = check_key(&evs, false).is_err();
+            let safety = check_key_exp(&evs, false, exp).is_err();
             if safety {
                 rep.viol(
                     "C02.not-linearizable",
@@ -948,12 +958,23 @@ fn judge_history(
                 rep.viol(
                     "C03.thr-spurious-nothing",
                     format!(
-                        "key {}: capacity-safe configuration without expiry, yet a lookup observed nothing where every linearization has a value: {}",
+                        "key {}: capacity-safe configuration, yet a lookup observed nothing where every linearization has a value that cannot have expired: {}",
                         k, desc
                     ),
                     end_step as usize,
                     Some(*k),
                 );
+                if has_inval {
+                    rep.viol(
+                        "C07.thr-lost-after-invalidation",
+                        format!(
+                            "key {}: a value written after (or not targeted by) the invalidations in this history is missing although it cannot have expired and everything fits: {}",
+                            k, desc
+                        ),
+                        end_step as usize,
+                        Some(*k),
+                    );
+                }
                 if has_iter {
                     rep.viol(
                         "C16.thr-missing",
